@@ -46,6 +46,10 @@ CORPUS = [
     {"pre": [("assign", "i0", "3"), ("assign", "i1", "(i0 + 1)"), ("assign", "i0", "(i1 * 2)")],
      "main": [("if", [("(i0 > 10)", [("assign", "i0", "(i0 - 7)")]), ("(i0 > 5)", [("assign", "i0", "(i0 - 1)")]), ("(i0 > 2)", [("write", '"mid"')])],
                [("assign", "i0", "20")]), ("write", "i0")]},
+    # first assignment inside a loop / a branch, read afterwards (promotion)
+    {"pre": [("assign", "i0", "2"), ("for", "k0", "3", [("assign", "i5", "(k0 + i0)")]), ("write", "i5"),
+             ("assign", "w0", "0"), ("while", "(w0 < 2)", [("assign", "i6", "(w0 * 5)"), ("assign", "w0", "(w0 + 1)")]), ("write", "i6")],
+     "main": [("if", [("(i0 > 1)", [("assign", "i7", "5")])], [("assign", "i7", "7")]), ("write", "(i7 + i5)"), ("assign", "i0", "(i0 - 1)")]},
 ]
 
 
@@ -374,5 +378,5 @@ def run_unit(ctx: C.Ctx):
         "evaluations": len(progs) + ir["ir_cases"] + ir.get("exec_cases", 0), "programs_by_status": dict(stats), "ir_correspondence": ir,
         "distinct_nontrivial": len({s for s, r in zip(srcs, res) if r["status"] == "equal" and len(r["py"]) >= 3}),
         "samples": [srcs[0][len(progen.HEADER):], srcs[-1][len(progen.HEADER):]],
-        "rule": "8 hand-written boundary programs (break guard, nested break, empty range, elif chain, shadowing loop variable) + seeded programs from harness/progen.py over 6 feature sets (core ints; +floats; +helper functions; +tuple/swap; all; first assignment inside branches), N in 0..3 loop passes, scripted analog/digital inputs (half of them constant per pin); every program: firmware trace vs CPython trace (oracle); programs without helper functions: IR of Lang.Transl.transl vs IR of the real parser; those with constant inputs additionally: extracted pexec vs CPython trace and extracted transl+cexec vs firmware trace (Lang.StmtExec), and the number of them inside the guard of C01_stmt_preserve_partial is recorded; non-trivial = both sides ran and the common trace has >= 3 events",
+        "rule": "9 hand-written boundary programs (break guard, nested break, empty range, elif chain, shadowing loop variable, promotion out of for/while/if) + seeded programs from harness/progen.py over 6 feature sets (core ints; +floats; +helper functions; +tuple/swap; all; first assignment inside branches), N in 0..3 loop passes, scripted analog/digital inputs (half of them constant per pin); every program: firmware trace vs CPython trace (oracle); programs without helper functions: IR of Lang.Transl.transl vs IR of the real parser; those with constant inputs additionally: extracted pexec vs CPython trace and extracted transl+cexec vs firmware trace (Lang.StmtExec), and the number of them inside the guard of C01_stmt_preserve_partial is recorded; non-trivial = both sides ran and the common trace has >= 3 events",
     }
